@@ -707,11 +707,13 @@ func patchUID(patch []byte) (string, bool) {
 }
 
 func (c *Cluster) deletePod(pod *corev1.Pod) error {
-	if pod.DeletionTimestamp != nil {
-		return nil // already terminating: accepted, nothing changes
-	}
+	// kube-apiserver: a pod that is not scheduled or already terminated (Failed/Succeeded) is deleted
+	// with grace period 0, i.e. removed at once - also when it was already terminating
 	if pod.Status.Phase == corev1.PodFailed || pod.Status.Phase == corev1.PodSucceeded || pod.Spec.NodeName == "" {
 		return c.tracker.Delete(GVRPods, pod.Namespace, pod.Name)
+	}
+	if pod.DeletionTimestamp != nil {
+		return nil // already terminating: accepted, nothing changes
 	}
 	p := pod.DeepCopy()
 	ts := c.Tick()
